@@ -130,11 +130,18 @@ def run(ctx):
             st["blocks"] += len(blocks)
             edges = [{"s": J.loc_name(s), "d": J.loc_name(d)} for s, d in ircfg.edges()]
             offs = []
-            for lk in loc_db.loc_keys:
-                off = loc_db.get_location_offset(lk)
-                if off is not None and off < (1 << lifter.IRDst.size):
-                    offs.append({"v": X.ibytes(off, lifter.IRDst.size), "loc": J.loc_name(lk)})
-            items.append({"t": "lifted", "blocks": blocks, "regs": regs, "irdst": lifter.IRDst.name, "offs": offs[-400:] + [{"v": [], "loc": "-"}],
+            seen_ints = set()
+            for b in ircfg.blocks.values():
+                def visit(x, seen_ints=seen_ints):
+                    if x.is_int():
+                        seen_ints.add((int(x), x.size))
+                    return x
+                b.dst.visit(visit)
+            for v, w in sorted(seen_ints):
+                lk = loc_db.get_offset_location(v)
+                if lk is not None:
+                    offs.append({"v": X.ibytes(v, w), "loc": J.loc_name(lk)})
+            items.append({"t": "lifted", "blocks": blocks, "regs": regs, "irdst": lifter.IRDst.name, "offs": offs + [{"v": [], "loc": "-"}],
                           "edges": edges + [{"s": "-", "d": "-"}]})
             meta.append((name, str(instr), bs[:instr.l].hex(), "%s:%s" % (fam_of(name), mnemo(name, instr))))
         stats[name] = st
